@@ -57,6 +57,13 @@ CHECKS = {
         'C08_unary: - + abs exact whenever representable. The raw method INTO a narrower imposed format (negative rescale through a float factor, then one rounding) is not yet a theorem: it is modelled (Arith.raw_elem/mscale) and rests on the '
         'correspondence run, which compares implementation, Spec and model for both methods, every sizing policy, out / out_like targets, constants on either side with op_input_size same/best, governing modes and identity z is out.',
    design='7/C08', technique='Coq proof (repr method, sizing coverage, unary) + differential correspondence for raw-into-imposed'),
+
+ 'C09': dict(
+   text='Proof (reference codes, all formats): the raw quotient floor(a*2^k/b) lies below the exact quotient by less than one LSB (C09_truediv_within_one_lsb), is exact when representable, and is inside the optimal format '
+        'for every pair of operand formats (C09_truediv_no_overflow, a bound lemma); x//y is floor(x/y); x%y = x - y*floor(x/y) with the divisor sign and (x//y)*y + x%y = x (C09_mod_and_reconstruction). Model: C09_truediv_raw_model_partial '
+        'proves that the dtype-level model of _truediv_raw + set_val returns exactly that code for operands of equal signedness up to 26 bits. PARTIAL: mixed signedness (float64 floor_divide), the repr method (rounded double quotient), '
+        'and the model-level // and % are not theorems; the correspondence run checks the property relations with exact rationals on the implementation output (neighbour relation, floor, modulo, reconstruction, formats) and compares the model on every case.',
+   design='7/C09', technique='Coq proof of the division laws and bounds + partial model theorem + differential correspondence'),
 }
 NA_REASON = 'check not built yet (work in progress; see DESIGN.md section 10 order of work)'
 def main():
